@@ -87,6 +87,7 @@ type tracedCID struct {
 	mode    byte
 	cids    map[cid.CID]bool // 'G': the CIDs the CMap has a code for
 	recoded bool             // 'G': the last Encode returned a code which the CMap maps to another CID
+	lastCID cid.CID          // the CID of the last GetCode/Encode call
 }
 
 func (w *tracedCID) codeHex(c charcode.Code) string {
@@ -94,6 +95,7 @@ func (w *tracedCID) codeHex(c charcode.Code) string {
 }
 
 func (w *tracedCID) GetCode(c cid.CID, text string) (charcode.Code, bool) {
+	w.lastCID = c
 	code, ok := w.CIDEncoder.GetCode(c, text)
 	if w.t.mute {
 		return code, ok
@@ -112,6 +114,7 @@ func (w *tracedCID) GetCode(c cid.CID, text string) (charcode.Code, bool) {
 }
 
 func (w *tracedCID) Encode(c cid.CID, text string, width float64) (charcode.Code, error) {
+	w.lastCID = c
 	code, err := w.CIDEncoder.Encode(c, text, width)
 	w.recoded = false
 	if w.mode == 'G' && err == nil {
